@@ -11,7 +11,8 @@
 From Compio.Model Require Import Base Wake.
 From Compio.Gen Require Import Consts.
 From Compio.Model Require Import RunC03.
-From Compio.Thm Require Import WakeThm WakeAcceptThm.
+From Compio.Gen Require Frag.
+From Compio.Thm Require Import WakeThm WakeAcceptThm FragWakeThm.
 Local Open Scope nat_scope.
 
 (* In every reachable state: if some waker thread has completed a wake (of a
@@ -193,3 +194,30 @@ Theorem C03_model_runs_accepted : forall cf n tg ls s,
                        exists w, nth_error (wk s) i = Some w /\ is_write (wp w) = true).
 Proof. exact model_runs_accepted. Qed.
 Print Assumptions C03_model_runs_accepted.
+
+
+(* ---- source tie of the AwakeFlag operations (translated from
+        compio-driver/src/sys/driver/mod.rs on every run by tools/rs2v.py into
+        gen/Frag.v; a fragment is  old flag -> new flag * returned value) ----
+
+   `set`, `reset` and `wake` as the source has them now are the flag transitions
+   of the LTS above (store AWAKE; swap IDLE and report whether NOTIFIED was set;
+   fetch_or NOTIFIED and report whether the old value was non-zero = "no system
+   call needed"), and the cfg(compio_verif) variants of reset / wake, which the
+   checks run, compute exactly what the production variants compute. *)
+Theorem C03_awake_flag_ops_are_model_ops : forall f : N,
+  Frag.awake_set f = (AWAKE_AWAKE, tt)
+  /\ Frag.awake_reset f = (AWAKE_IDLE, has_notified f)
+  /\ Frag.awake_wake f = (fl_wake f, negb (fl_idle f))
+  /\ Frag.awake_reset_hooked f = Frag.awake_reset f
+  /\ Frag.awake_wake_hooked f = Frag.awake_wake f.
+Proof. exact awake_flag_tie. Qed.
+Print Assumptions C03_awake_flag_ops_are_model_ops.
+
+Theorem C03_awake_flag_values :
+  AWAKE_IDLE = 0%N /\ N.land AWAKE_AWAKE AWAKE_NOTIFIED = 0%N
+  /\ AWAKE_AWAKE <> 0%N /\ AWAKE_NOTIFIED <> 0%N
+  /\ (forall f, (f < 4)%N -> (fl_wake f < 4)%N)
+  /\ (forall f, has_notified (fl_wake f) = true).
+Proof. exact awake_flag_values. Qed.
+Print Assumptions C03_awake_flag_values.
